@@ -10,6 +10,7 @@ import Driver.Conn
 import Driver.Engine2
 import Driver.Trans
 import Driver.Ack
+import Driver.Ms
 /-! `slockmodel`: reads one operation per line on stdin, prints the model's observation per line. -/
 namespace Driver
 
@@ -21,7 +22,7 @@ def dispatch (line : String) : String :=
   | _ =>
     match handleCodec toks <|> handleQueue toks <|> handleValue toks <|> handleEngine toks <|> handleAof toks
         <|> handleText toks <|> handleElect toks <|> handleRepl toks <|> handleConn toks <|> handleEngine2 toks
-        <|> handleTrans toks <|> handleAck toks with
+        <|> handleTrans toks <|> handleAck toks <|> handleMs toks with
     | some r => r
     | none => "bad-op"
 
